@@ -1,6 +1,6 @@
 //! Compiler-core harness (C01, C02, C07, C08): random and corpus source models through
 //! Linearizer::linearize; prints correspondence cases; evaluates the properties on the implementation.
-use harness::{coqfmt as cq, eval::*, gens::b, models::*, report::Report, rng::Rng};
+use harness::{eval::*, gens::b, models::*, report::Report, rng::Rng};
 use indexmap::IndexMap;
 use rooc::model_transformer::{Constraint, Exp, Model};
 use rooc::{BinOp, Comparison, Linearizer, OptimizationType, UnOp, VariableType};
